@@ -26,7 +26,16 @@ def derived_events(db, rng, n):
             ents.append((c, [u, rng.choice([-4, -3, -2, -1, -1, 1, 1, 2, 3, 4])]))
         if len(ents) < 2:
             continue
-        q = ObtainQuantity(OrderedDict(ents))
+        if _ % 3 == 0:
+            # the caller keeps working with the specification it handed to the validating factory (and changes it for the next request)
+            from barril.units import Quantity
+            spec = OrderedDict((c, list(ue)) for c, ue in ents)
+            q = Quantity.CreateDerived(spec)
+            first = next(iter(spec))
+            spec[first][1] = spec[first][1] + (1 if spec[first][1] < 4 else -1) or 2
+            Quantity.CreateDerived(spec)
+        else:
+            q = ObtainQuantity(OrderedDict(ents))
         s = Scalar(q, 2.5)
         a = Array(q, [1.0, 2.0])
         unit = q.GetUnit()
